@@ -33,13 +33,15 @@ Inductive query :=
 | QMany (sels : list selector)      (* GetDescriptors *)
 | QOne (sels : list selector)       (* GetDescriptor *)
 | QData (id : Z)                    (* GetDescriptor(WithID id) then GetData *)
-| QMeta (id : Z).                   (* GetDescriptor(WithID id) then every typed accessor (Meta.v) *)
+| QMeta (id : Z)                    (* GetDescriptor(WithID id) then every typed accessor (Meta.v) *)
+| QHeader.                          (* every accessor of the image header (Meta.v header_view) *)
 
 Inductive qobs :=
 | QIds (l : list (Z * Z))           (* (ID, relative ID) of each descriptor returned *)
 | QErr (e : err)
 | QBytes (bs : list brun)
-| QView (name : list byte) (nums : list Z) (arch fp digest : list byte).
+| QView (name : list byte) (nums : list Z) (arch fp digest : list byte)
+| QHdr (launch version arch id : list byte) (nums : list Z).
 
 Record hcase := mkCase {
   c_id : Z;
@@ -133,6 +135,9 @@ Definition run_query (s : state) (q : query) : qobs :=
           let v := meta_view d in QView (mv_name v) (mv_nums v) (mv_arch v) (mv_fp v) (mv_digest v)
       | inr e => QErr e
       end
+  | QHeader =>
+      let v := header_view (m_hdr (s_mem s)) in
+      QHdr (hv_launch v) (hv_version v) (hv_arch v) (hv_id v) (hv_nums v)
   end.
 
 Fixpoint zs_eqb (a b : list Z) : bool :=
@@ -149,6 +154,8 @@ Definition qobs_eqb (a b : qobs) : bool :=
   | QBytes x, QBytes y => bytes_eqb (expand x) (expand y)
   | QView n1 z1 a1 f1 g1, QView n2 z2 a2 f2 g2 =>
       bytes_eqb n1 n2 && zs_eqb z1 z2 && bytes_eqb a1 a2 && bytes_eqb f1 f2 && bytes_eqb g1 g2
+  | QHdr l1 v1 a1 i1 z1, QHdr l2 v2 a2 i2 z2 =>
+      bytes_eqb l1 l2 && bytes_eqb v1 v2 && bytes_eqb a1 a2 && bytes_eqb i1 i2 && zs_eqb z1 z2
   | _, _ => false
   end.
 
